@@ -69,7 +69,7 @@ def rule_IT(FA):
             for bi, fld, val, line, ty in rel:
                 atoms = path_atoms(F, bi)
                 fterm = ('field', SELF, fld)
-                if guard not in atoms:
+                if guard not in atoms and not _guarded_by_get(FA, atoms, cur, bound):
                     out.append(Inst('R-IT', '%s|%s|%s unguarded' % (key, name, fld), 'violation', line,
                                     '%s() writes cursor `%s` without the dominating test `%s`: after exhaustion len() = %s underflows / elements repeat' % (
                                         name, fld, fmt_atom(guard), show(lret)), props,
@@ -103,6 +103,28 @@ def rule_IT(FA):
                             st = 'violation'
                         out.append(Inst('R-IT', 'R-IT|%s|ctor' % fn_key(f), st, s['line'], 'WTIterator { i: %s, end: %s }' % (show(d.get('i')), show(lt)), props))
     return out
+
+
+def _guarded_by_get(FA, atoms, cur, bound):
+    """The write happens only after `X.get(cursor)` answered Some, where len(X) is the bound
+    (`let v = self.bv.get(self.i)?; self.i += 1`)."""
+    from . import r_guard
+    for a in atoms:
+        if a[0] != 'is':
+            continue
+        for st in subterms(a[1]):
+            if isinstance(st, tuple) and st and st[0] == 'call' and st[1].split('::')[-1] == 'get' and len(st[2]) == 2 and st[2][1] == cur:
+                X = st[2][0]
+                is_some = (a[2] == 1 and not any(isinstance(y, tuple) and y and y[0] == 'call' and y[1].split('::')[-1] == 'branch' for y in subterms(a[1]))) or \
+                          (a[2] == 0 and any(isinstance(y, tuple) and y and y[0] == 'call' and y[1].split('::')[-1] == 'branch' for y in subterms(a[1])))
+                if not is_some:
+                    continue
+                for (base, name), contract in r_guard.API.items():
+                    if name == 'get' and contract.get(1) == 'index':
+                        L = r_guard.len_term(FA, base)
+                        if L is not None and r_guard._replace(L, SELF, X) == bound:
+                            return True
+    return False
 
 
 # ---------------------------------------------------------------- R-NON / R-CONV
